@@ -286,6 +286,10 @@ func c05Prop(st *CaseStats, fam int) func(t *rapid.T) {
 			chunks[p.Doc/cs] = true
 		}
 		// history
+		renumber := rapid.Bool().Draw(t, "renumberReturnedPostings")
+		if renumber {
+			labels = append(labels, "returned-postings-renumbered")
+		}
 		nSteps := rapid.IntRange(1, 25).Draw(t, "nSteps")
 		idx := 0
 		last := int64(-1)
@@ -392,6 +396,11 @@ func c05Prop(st *CaseStats, fam int) func(t *rapid.T) {
 				t.Fatalf("%s\n  history%s: expected posting %d, got nil", desc, hist, want.Doc)
 			}
 			g := XPosting{Doc: got.Number(), Freq: got.Frequency(), Norm: float32(got.Norm()), Locs: copyLocs(got.Locations())}
+			if renumber {
+				// an index reader renumbers the postings it is handed (segment base + local number): the
+				// iterator must not take its bearings from the posting it gave away
+				got.SetNumber(got.Number() + 1000000)
+			}
 			w := *want
 			if !any {
 				g.Freq, g.Norm, w.Freq, w.Norm = 0, 0, 0, 0
